@@ -609,6 +609,8 @@ package profile
 // The validity contract of the property: every sample has one value per sample type and non-nil locations;
 // mappings, functions and locations are non-nil, have non-zero pairwise distinct ids; every location's mapping
 // and every line's function is present in the profile's table.
+//@     step numbered: len(locs) != len(iter(locs)) ==> len(locs) == len(iter(locs)) + 1 && locs[len(locs) - 1] == l && l.ID == uint64(len(locs)) && !atiter(2, has(seen, l) && seen[l])
+//@     step skipped: len(locs) == len(iter(locs)) ==> atiter(2, has(seen, l) && seen[l])
 //@ spec macro func samplesvalid(p *Profile) bool = forall i int :: 0 <= i && i < len(p.Sample) ==> p.Sample[i] != nil
 //@     && len(p.Sample[i].Value) == len(p.SampleType) && forall j int :: 0 <= j && j < len(p.Sample[i].Location) ==> p.Sample[i].Location[j] != nil
 //@ spec macro func mappingsvalid(p *Profile) bool = (forall i int :: 0 <= i && i < len(p.Mapping) ==> p.Mapping[i] != nil && p.Mapping[i].ID != 0)
@@ -1142,3 +1144,48 @@ package profile
 //@     step merged_file: len(mappings) == len(iter(mappings)) && lm != m ==> lm.File == ite(atiter(1, m.File) != "", atiter(1, m.File), atiter(1, lm.File))
 //@     step merged_buildid: len(mappings) == len(iter(mappings)) && lm != m ==> lm.BuildID == ite(atiter(1, m.BuildID) != "", atiter(1, m.BuildID), atiter(1, lm.BuildID))
 //@     step appended: len(mappings) != len(iter(mappings)) ==> len(mappings) == len(iter(mappings)) + 1 && mappings[len(mappings) - 1] == m
+
+// ---- C03: mapFunction / mapLine — a function is resolved through the per-input id memo first, then through its content
+// key; only when neither knows it is one new function created, with the source's name, system name, file name and start
+// line and the next id, appended last and memoised under both the key and the input's id. A line keeps its line and
+// column numbers and gets the mapped function ----
+//@ func profileMerger.mapFunction arith bv
+//@   requires pm != nil && pm.p != nil && pm.functions != nil && pm.functionsByID != nil
+//@   ensures nilsrc: src == nil ==> result == nil
+//@   ensures memo_hit: src != nil && old(has(pm.functionsByID, src.ID)) ==> result == old(pm.functionsByID[src.ID]) && len(pm.p.Function) == old(len(pm.p.Function))
+//@   ensures memoized: src != nil ==> has(pm.functionsByID, src.ID) && pm.functionsByID[src.ID] == result
+//@   ensures created: src != nil && result != nil && fresh(result) ==> result.Name == src.Name && result.SystemName == src.SystemName && result.Filename == src.Filename && result.StartLine == src.StartLine
+//@       && result.ID == uint64(old(len(pm.p.Function)) + 1) && len(pm.p.Function) == old(len(pm.p.Function)) + 1 && pm.p.Function[len(pm.p.Function) - 1] == result
+//@   ensures not_created: src != nil && !(result != nil && fresh(result)) ==> len(pm.p.Function) == old(len(pm.p.Function))
+//@   ensures key_hit: src != nil && !old(has(pm.functionsByID, src.ID)) && old(has(pm.functions, callres("Function.key", 0))) ==> result == old(pm.functions[callres("Function.key", 0)]) && len(pm.p.Function) == old(len(pm.p.Function))
+//@   ensures key_miss: src != nil && !old(has(pm.functionsByID, src.ID)) && !old(has(pm.functions, callres("Function.key", 0))) ==> result != nil && fresh(result) && has(pm.functions, callres("Function.key", 0)) && pm.functions[callres("Function.key", 0)] == result
+//@ func profileMerger.mapLine arith bv
+//@   requires pm != nil && pm.p != nil && pm.functions != nil && pm.functionsByID != nil
+//@   ensures numbers: result.Line == src.Line && result.Column == src.Column
+//@   ensures fn_nil: src.Function == nil ==> result.Function == nil
+
+// mapLocation: a new location keeps the source's address shifted by the offset its mapping was rebased with, the mapped
+// mapping, as many lines with the same line and column numbers, and the folded flag; it is appended only when no location
+// with the same key exists, otherwise the existing one is returned and nothing is appended
+//@ func profileMerger.mapLocation arith bv nosafety
+//@   requires pm != nil && pm.p != nil && pm.functions != nil && pm.functionsByID != nil && pm.mappings != nil && pm.mappingsByID != nil && pm.locations != nil
+//@   requires forall k mappingKey :: has(pm.mappings, k) ==> pm.mappings[k] != nil
+//@   ensures nilsrc: src == nil ==> result == nil
+//@   ensures key_hit: src != nil && result != nil && !fresh(result) ==> len(pm.p.Location) == old(len(pm.p.Location))
+//@   ensures created: src != nil && result != nil && fresh(result) ==> result.Address == uint64(int64(src.Address) + callres("profileMerger.mapMapping", 0).offset) && result.Mapping == callres("profileMerger.mapMapping", 0).m
+//@       && len(result.Line) == len(src.Line) && (result.IsFolded <==> src.IsFolded) && len(pm.p.Location) == old(len(pm.p.Location)) + 1 && pm.p.Location[len(pm.p.Location) - 1] == result
+//@   ensures created_lines: src != nil && result != nil && fresh(result) ==> forall j int :: 0 <= j && j < len(src.Line) ==> result.Line[j].Line == src.Line[j].Line && result.Line[j].Column == src.Line[j].Column
+//@   loop 1
+//@     invariant 0 <= $i && $i <= len(src.Line) && l != nil && fresh(l) && fresh(l.Line) && len(l.Line) == len(src.Line) && src != nil
+//@     invariant pm != nil && pm.p != nil && pm.functions != nil && pm.functionsByID != nil && pm.locations != nil
+//@     invariant len(pm.p.Location) == old(len(pm.p.Location))
+//@     invariant hdr: l.Address == uint64(int64(src.Address) + callres("profileMerger.mapMapping", 0).offset) && l.Mapping == callres("profileMerger.mapMapping", 0).m && (l.IsFolded <==> src.IsFolded)
+//@     invariant lines: forall j int :: 0 <= j && j < $i ==> l.Line[j].Line == src.Line[j].Line && l.Line[j].Column == src.Line[j].Column
+//@     invariant srcsame: forall j int :: 0 <= j && j < len(src.Line) ==> src.Line[j].Line == old(src.Line[j].Line) && src.Line[j].Column == old(src.Line[j].Column)
+
+// remapFunctionIDs: a function met for the first time gets the next id (count so far + 1) and is appended; a function
+// already seen, or a nil function, changes nothing
+//@ func Profile.remapFunctionIDs arith bv nosafety
+//@   loop 2
+//@     step numbered: len(fns) != len(iter(fns)) ==> len(fns) == len(iter(fns)) + 1 && fns[len(fns) - 1] == fn && fn.ID == uint64(len(fns)) && fn != nil && !atiter(2, has(seen, fn) && seen[fn])
+//@     step skipped: len(fns) == len(iter(fns)) ==> fn == nil || atiter(2, has(seen, fn) && seen[fn])
